@@ -39,6 +39,7 @@ import GraphiqModel.Proofs.MetricsHistChain
 import GraphiqModel.Proofs.MetricsHistIso
 import GraphiqModel.Proofs.MetricsHistEdits
 import GraphiqModel.Proofs.MetricsHistInsert
+import GraphiqModel.Proofs.MetricsHistFuse
 import GraphiqModel.Properties.C12
 namespace Graphiq.C18
 open Graphiq Graphiq.Dag Graphiq.Metrics
@@ -582,6 +583,24 @@ theorem equal_wires_equal_metrics {c c' : Dag} {P P' : Reg → List NodeId} (g :
   · rw [m'.max_emitter_depth, m.max_emitter_depth, hnE]
   · rw [m'.reset_depth, m.reset_depth, hnE]
   · rw [m'.effective_depth, m.effective_depth, hnE]
+
+/-- **metrics after `group_one_qubit_gates`**: the call does not raise, and its result has the metric values of ANY circuit
+    (satisfying DagInv, plain operations, same register counts) whose wires carry the fused sequences `fuseWire r (wire of r before)` —
+    so with `metrics_after_add … metrics_after_remove_identity` the effect of each of the eight edit kinds on every metric is a list
+    edit of the operation list / of the wire sequences -/
+theorem metrics_after_group {c c'' : Dag} {P P'' : Reg → List NodeId} (g : Good c P) (hh : GroupHyp c) (g'' : Good c'' P'')
+    (hpl'' : AllPlain c'') (hregs : c''.regs = c.regs) (hw : ∀ r, wiredWire c'' P'' r = fuseWire r (wiredWire c P r)) :
+    c.groupOneQubitGates.2 = none ∧
+    Metrics.cnotCount c'' = Metrics.cnotCount c.groupOneQubitGates.1 ∧
+    Metrics.measureCount c'' = Metrics.measureCount c.groupOneQubitGates.1 ∧
+    Metrics.unitaryCount c'' = Metrics.unitaryCount c.groupOneQubitGates.1 ∧
+    Metrics.circuitDepth c'' = Metrics.circuitDepth c.groupOneQubitGates.1 ∧
+    (∀ t, c''.calculateRegDepth t = c.groupOneQubitGates.1.calculateRegDepth t) ∧
+    Metrics.maxEmitDepth c'' = Metrics.maxEmitDepth c.groupOneQubitGates.1 ∧
+    Metrics.maxEmitResetDepth c'' = Metrics.maxEmitResetDepth c.groupOneQubitGates.1 ∧
+    Metrics.maxEmitEffDepth c'' = Metrics.maxEmitEffDepth c.groupOneQubitGates.1 := by
+  obtain ⟨e, P', g', hh', hr', hw'⟩ := groupOneQubitGates_wiredWire g hh
+  exact ⟨e, equal_wires_equal_metrics g' g'' hh'.plain hpl'' (hregs.trans hr'.symm) (fun r _ => (hw r).trans (hw' r).symm)⟩
 
 /-! ### the theorems for `add`-built circuits are the special case "schedule = creation order" -/
 
